@@ -391,6 +391,20 @@ func (c *ctx) reuseEvents() {
 				return out
 			}, c.bytesN(15), c.bytesN(3*c.rnd.Intn(5))))
 	}
+	// the channel-mask CFList part decoder on a long-lived value: masks first, then input that sets no channel at all
+	{
+		b2 := make([]byte, c.rnd.Intn(16))
+		if c.rnd.Intn(3) == 0 {
+			c.rnd.Read(b2)
+		}
+		c.emit(reuseEvent("part/CFListChannelMaskPayload", func() interface{} { return &lorawan.CFListChannelMaskPayload{} },
+			func(p interface{}, b []byte) error {
+				return p.(*lorawan.CFListChannelMaskPayload).UnmarshalBinary(false, b)
+			},
+			func(p interface{}) interface{} {
+				return cflistToVal(&lorawan.CFList{CFListType: lorawan.CFListChannelMask, Payload: p.(*lorawan.CFListChannelMaskPayload)})
+			}, c.bytesN(2*(1+c.rnd.Intn(6))), b2))
+	}
 	// whole frames; the first one sometimes with reserved MHDR bits set (a sender of a later revision); the value is observed
 	// through its exported fields AND through what it encodes to (unexported members count too)
 	fb1, fb2 := c.validFrameBytes(), c.validFrameBytes()
